@@ -1,6 +1,6 @@
 #!/bin/bash
 # development helper: run every registered quick (or $TIER) check on /repo as it is (must be clean) and summarise.
-cd /verif
+cd "$(dirname "$0")"
 if [ -n "$(git -C /repo status --porcelain)" ]; then echo "/repo is not clean"; exit 2; fi
 tier=${TIER:-quick}
 rc=0
